@@ -195,6 +195,8 @@ def run(ctx):
     rule_no_follow(ctx, facts, "C05-R2")
     from .finder import rule_parse_complete
     rule_parse_complete(ctx, facts, "C05-R2")
+    from .c01 import rule_file_list_immutable
+    rule_file_list_immutable(ctx, facts, "C05-R2")
     # ---- R3 verdict --------------------------------------------------------------------------
     P = "C05-R3"
     ch = edit.anchor(ctx, facts, P, edit.CHECK, "check_references")
